@@ -69,7 +69,7 @@ def main(argv):
             ok = True
             for r in thorough.seeds(argv[1] if len(argv) > 1 else None, workers=4):
                 exp = r.get('expected') or []
-                good = (r['status'] == 'alarm' and r.get('target') in r.get('props', [])) or (not exp and r['status'] in ('silent', 'undecided'))
+                good = (r['status'] == 'alarm' and (r.get('target') in r.get('props', []) or (exp and set(exp) <= set(r.get('props', []))))) or (not exp and r['status'] in ('silent', 'undecided'))
                 if r.get('seed', '').startswith('C09-') and r['status'] == 'silent':
                     good = True   # detected by the bounded check, not by Verus
                 ok = ok and good
